@@ -689,15 +689,17 @@ def _predicted(fid, a, b, f):
     if how != "text":
         return "the run is not reproducible"
     if kind == "infoset":
-        # the document must be right up to the deviation the finding predicts
-        TOL.add(fid)
+        # the document must be right up to the deviations that the findings whose trait the input has predict
+        # (without this finding's deviation it must not be: that is the failure being explained)
+        present = {g for g, (pred, _) in KNOWN.items() if pred(a)}
+        TOL.update(present)
         TOL_DEFAULT[0] = user_map(a["ns_map"]).get(None)
         try:
             k2, d2 = judge_output(text, expected_tree(a["events"], a["cfg"]))
         finally:
-            TOL.discard(fid)
+            TOL.clear()
             TOL_DEFAULT[0] = None
-        return None if k2 is None else "apart from what the finding predicts: %s %s" % (k2, d2[:200])
+        return None if k2 is None else "apart from what the findings %s predict: %s %s" % (sorted(present), k2, d2[:200])
     if kind == "not-wf" and fid == "c03-nonxml-chars":
         # the writer treats the characters as opaque: the text is that of the clean run, character by character
         cfgb = dict(cfg)
